@@ -267,7 +267,7 @@ pub fn c04_lax_jobs(tier: Tier, _seed: u64) -> Vec<Job> {
 }
 
 pub fn c10_jobs(tier: Tier, seed: u64) -> Vec<Job> {
-    let per_job = Duration::from_secs(if tier == Tier::Quick { 60 } else { 900 });
+    let per_job = Duration::from_secs(if tier == Tier::Quick { 60 } else { 600 });
     let cfg = base_cfg(tier);
     let shs = small_shapes(tier);
     let mut groups: Vec<Vec<Job>> = vec![];
@@ -350,6 +350,6 @@ pub fn def_c10() -> CheckDef {
         bounds_quick: "conversions: <=3 nodes, <=2 hyperedges (arities up to 2->1), <=2 pending pairs, interfaces <=2 (<=7 node references); compose / commutation / in-place forms: pairs of diagrams with <=2 nodes, <=1 hyperedge, <=1 pending pair each, <=6 node references per pair; all wirings enumerated, labels symbolic",
         bounds_thorough: "conversions <=4 nodes / <=9 references; pairs <=3 nodes each / <=8 references",
         jobs: c10_jobs,
-        budget_s: (170, 3000),
+        budget_s: (170, 1500),
     }
 }
